@@ -4,6 +4,7 @@ import Fv.Lemmas.PolicySlru
 import Fv.Lemmas.PolicySieve
 import Fv.Lemmas.PolicyClock
 import Fv.Lemmas.PolicyArc
+import Fv.Lemmas.PolicyTinyLfu
 /-!
 # C14 — eviction policies nominate only tracked residents and follow their definition
 
@@ -519,12 +520,82 @@ theorem arc_readmit_updates_cost {s : Arc.State} (h : Arc.Inv s) (k c cap : Nat)
   obtain ⟨hi, hm, _⟩ := Arc.admit_spec h k c cap
   exact (costOf_eq_some_iff (Arc.nodup_tracked hi)).2 hm
 
-/-! ## TinyLFU -/
+/-! ## W-TinyLFU (tracked = admission window ++ main SLRU; the theorems hold for EVERY state of
+the frequency sketch, so they do not depend on how the sketch is modelled) -/
+
+theorem tinylfu_inv_step (cfg : TinyLfu.Cfg) {s : TinyLfu.State} (h : TinyLfu.Inv s) (op : Op) :
+    TinyLfu.Inv (TinyLfu.step cfg s op) := by
+  cases op with
+  | admit k c => exact (TinyLfu.admit_spec h cfg k c).1
+  | access k c => exact (TinyLfu.access_spec h cfg k c).1
+  | remove k => exact (TinyLfu.remove_spec h k).1
+  | evict n picks => exact (TinyLfu.evict_spec h cfg n).choose_spec.2.2.2.1
+  | clear => exact ⟨LruList.WF_empty, Slru.Inv_init, by simp [TinyLfu.step, TinyLfu.clear]⟩
+
+theorem tinylfu_inv_reachable (cfg : TinyLfu.Cfg) (ops : List Op) : TinyLfu.Inv (TinyLfu.run cfg ops) :=
+  foldl_inv (TinyLfu.step cfg) TinyLfu.Inv (fun _ a h => tinylfu_inv_step cfg h a) ops
+    (TinyLfu.init cfg) (TinyLfu.Inv_init cfg)
+
+/-- the invariant says in particular: no key is tracked twice (window, probation, protected) -/
+theorem tinylfu_inv_nodup {s : TinyLfu.State} (h : TinyLfu.Inv s) : (keys (TinyLfu.tracked s)).Nodup :=
+  TinyLfu.nodup_tracked h
+
+example : TinyLfu.Inv (TinyLfu.run (TinyLfu.mkCfg 10)
+    [.admit 1 1, .admit 2 1, .admit 3 1, .access 2 1, .evict 1 []]) := tinylfu_inv_reachable _ _
+
+theorem tinylfu_evict_sound {s : TinyLfu.State} (h : TinyLfu.Inv s) (cfg : TinyLfu.Cfg) (n : Nat) :
+    EvictSound (TinyLfu.tracked s) (TinyLfu.tracked (TinyLfu.evict s cfg n).1)
+      (TinyLfu.evict s cfg n).2.1 (TinyLfu.evict s cfg n).2.2
+    ∧ TinyLfu.Inv (TinyLfu.evict s cfg n).1 := by
+  obtain ⟨popped, h1, h2, hp, hi, _⟩ := TinyLfu.evict_spec h cfg n
+  rw [h1, h2]; exact ⟨EvictSound.of_perm (TinyLfu.nodup_tracked h) hp, hi⟩
 
 /-- F9b witness: TinyLFU never nominates a key that sits in the admission window. -/
 theorem C14_fails_F9b_tinylfu :
     let cfg := TinyLfu.mkCfg 10
     let s := (TinyLfu.admit (TinyLfu.init cfg) cfg 1 1).1
     s.window.contains 1 = true ∧ (TinyLfu.evict s cfg 1).2 = ([], 0) := by decide
+
+/-- PARTIAL (F9b): `evict n` frees at least `n` provided the MAIN segment alone is worth `n`.
+Excluded: the cost of keys sitting in the admission window — `evict` never nominates them
+(witness `C14_fails_F9b_tinylfu`). -/
+theorem tinylfu_evict_enough_partial {s : TinyLfu.State} (h : TinyLfu.Inv s) (cfg : TinyLfu.Cfg)
+    {n : Nat} (hn : n ≤ costSum (Slru.tracked s.main)) : n ≤ (TinyLfu.evict s cfg n).2.2 := by
+  obtain ⟨popped, _, h2, hp, _, hd⟩ := TinyLfu.evict_spec h cfg n
+  rw [h2]
+  rcases hd with hd | hd
+  · exact hd
+  · have := costSum_perm hp
+    have hw : (TinyLfu.evict s cfg n).1.window = s.window := by
+      unfold TinyLfu.evict; split <;> rfl
+    simp only [TinyLfu.tracked, hd, hw, costSum_append, costSum_nil] at this
+    omega
+
+example : TinyLfu.Inv (TinyLfu.run (TinyLfu.mkCfg 10) [.admit 1 1, .admit 2 1, .admit 3 1]) ∧
+    1 ≤ costSum (Slru.tracked (TinyLfu.run (TinyLfu.mkCfg 10) [.admit 1 1, .admit 2 1, .admit 3 1]).main) :=
+  ⟨tinylfu_inv_reachable _ _, by decide⟩
+
+/-- TinyLFU obeys the tracking contract at full strength: `admit` may reject window candidates,
+and it reports exactly those as `AdmitAndEvict` victims. -/
+theorem tinylfu_untrack_only_by_nomination {s : TinyLfu.State} (h : TinyLfu.Inv s)
+    (cfg : TinyLfu.Cfg) (k c : Nat) :
+    AccessOk (TinyLfu.tracked s) (TinyLfu.tracked (TinyLfu.access s cfg k c)) k
+    ∧ AdmitOk (TinyLfu.tracked s) (TinyLfu.tracked (TinyLfu.admit s cfg k c).1) k
+        (TinyLfu.admit s cfg k c).2.victims
+    ∧ RemoveOk (TinyLfu.tracked s) (TinyLfu.tracked (TinyLfu.remove s k)) k
+    ∧ TinyLfu.tracked (TinyLfu.clear s) = [] := by
+  refine ⟨(TinyLfu.access_spec h cfg k c).2, (TinyLfu.admit_spec h cfg k c).2.1, ?_, rfl⟩
+  rw [(TinyLfu.remove_spec h k).2]; exact RemoveOk.of_without _ k
+
+example : (TinyLfu.admit (TinyLfu.run (TinyLfu.mkCfg 10) [.admit 1 1, .admit 2 1, .access 1 1, .access 1 1])
+    (TinyLfu.mkCfg 10) 3 1).2 = .admitAndEvict [2] := by decide
+
+/-- After `admit k c`, unless `k` itself was rejected by the admission filter (then it is among
+the reported victims and untracked), `k` is tracked with cost `c` — once, by `tinylfu_inv_nodup`. -/
+theorem tinylfu_readmit_updates_cost {s : TinyLfu.State} (h : TinyLfu.Inv s)
+    (cfg : TinyLfu.Cfg) (k c : Nat) (hk : k ∉ (TinyLfu.admit s cfg k c).2.victims) :
+    costOf (TinyLfu.tracked (TinyLfu.admit s cfg k c).1) k = some c := by
+  obtain ⟨hi, _, hm⟩ := TinyLfu.admit_spec h cfg k c
+  exact (costOf_eq_some_iff (TinyLfu.nodup_tracked hi)).2 (hm hk)
 
 end Fv.Props.C14
